@@ -55,6 +55,14 @@ def day_frac(val1, val2, factor=None, divisor=None):
     # Add val1 and val2 exactly, returning the result as two float64s.
     # The first is the approximate sum (with some floating point error)
     # and the second is the error of the float64 sum.
+    # (half and single precision values are exact doubles; their sum is not
+    # a half or single precision number)
+    val1, val2 = (
+        np.asanyarray(v, dtype=np.float64)[()]
+        if getattr(v, "dtype", None) is not None and v.dtype.kind == "f" and v.dtype.itemsize < 8
+        else v
+        for v in (val1, val2)
+    )
     sum12, err12 = two_sum(val1, val2)
 
     # The exact products below need double precision (a float16 factor would
@@ -883,6 +891,9 @@ class Phase(Angle):
                 divisor_parts = (inputs[1]["int"], inputs[1]["frac"])
             else:
                 divisor = inputs[1]
+                if getattr(divisor, "dtype", np.dtype(float)).itemsize < 8:
+                    # (a half or single precision divisor is an exact double)
+                    divisor = divisor.astype(np.float64)
                 divisor_parts = (divisor,)
             fd_out = None
             if out is not None:
